@@ -75,7 +75,7 @@ class Ctx:
         is True/False when the path decides it (KeyError raised or not, result tested against None) else None"""
         out = []
         for e in p.events:
-            if e.kind == "call" and e.attrname == "pop" and e.recv is not None and self.on_store(e.recv) and not e.targets and e.args:
+            if e.kind == "call" and e.attrname == "pop" and e.recv is not None and e.recv != ("attr", ("self", TS), "store") and self.on_store(e.recv) and not e.targets and e.args:
                 if len(e.args) >= 2:
                     pres = None
                     for c, v, _, _ in p.conds:
@@ -157,10 +157,13 @@ def expiry_once(cx: Ctx, rule: str):
         A, E = P(fi, a_name), P(fi, e_name)
         for p in cx.eng.paths(fi, recv=TS):
             run.paths += 1
-            pops = [e for e in p.events if e.kind == "call" and e.attrname == "pop" and cx._is_store_mutation(e)]
+            lks = [(e, k, pres) for e, k, pres in cx.key_lookups(p) if k == "pop"]
+            pops = [e for e, k, pres in lks]
             cbs = [e for e in p.events if e.kind == "call" and ((not e.sched and cx.slot_role(e.fterm) == "callback_expired")
                                                                    or (e.sched and cx.slot_role(e.cb) == "callback_expired"))]
-            ok_pop = [e for e in pops if e.raised is None]
+            if any(pres is None for e, k, pres in lks):
+                raise AnalysisError(f"{fi.qual}: the result of the removal is not tested for presence on path [{p.describe()[:60]}]")
+            ok_pop = [e for e, k, pres in lks if pres]
             want = 1 if ok_pop else 0
             good = len(cbs) == want and len(pops) <= 1
             if good and cbs:
@@ -178,13 +181,15 @@ def expiry_once(cx: Ctx, rule: str):
         for p in ps:
             cl = [e for e in p.events if e.kind == "call" and e.attrname == "clear" and cx._is_store_mutation(e)
                   and e.recv is not None and e.recv[0] == "item"]
+            # the per-address dict may also be taken out as a whole: stopping = self.store.pop(address, {})
+            cl += [e for e in p.events if e.kind == "call" and e.attrname == "pop" and e.recv == ("attr", ("self", TS), "store") and e.args]
             if not cl:
                 continue
             clears_inner = True
             elems = _items_elems(cx, p)
             cbs = [e for e in p.events if e.kind == "call" and ((not e.sched and cx.slot_role(e.fterm) == "callback_expired")
                                                                    or (e.sched and cx.slot_role(e.cb) == "callback_expired"))]
-            addr = cl[0].recv[2]
+            addr = cl[0].recv[2] if cl[0].attrname == "clear" else cl[0].args[0]
             good = len(cbs) == len(elems)
             for el, c in zip(sorted(elems, key=lambda x: x[3]), cbs):
                 args = c.cbargs if c.sched else c.args
@@ -195,6 +200,65 @@ def expiry_once(cx: Ctx, rule: str):
         if clears_inner and not any(_items_elems(cx, p) for p in ps):
             run.ob(rule, f"{fi.qual}:bulk-removal-visits-values", False, loc(fi), "all values of an address are dropped without visiting them (no report, no timer cancel)")
     run.floor(rule + "-bulk", bulk, 2)
+
+
+def owners_using(cx: Ctx, fi) -> t.Set[str]:
+    """attribute names of the TimedStore objects (e.g. 'found_services', 'subscriptions') on which store method `fi`
+    is (transitively, through other TimedStore methods) invoked, timers included"""
+    ts_methods = {m.qual: m for m in cx.prog.cls(TS).methods.values()}
+    reach = {fi.qual}
+    changed = True
+    while changed:
+        changed = False
+        for q, m in ts_methods.items():
+            if q in reach:
+                continue
+            for e in cx.scan.events(q):
+                if e.kind == "call" and ((any(f.qual in reach for f in e.targets) and e.recv == ("self", TS))
+                                         or (e.sched and e.cb is not None and e.cb[0] == "bound" and e.cb[2] in reach and e.cb[1] == ("self", TS))):
+                    reach.add(q)
+                    changed = True
+                    break
+    owners = set()
+    for f2, r, e in cx.scan.all():
+        if e.kind == "call" and any(f.qual in reach for f in e.targets) and e.recv is not None and e.recv[0] == "attr" and e.recv != ("self", TS):
+            ty = cx.eng.typer.type_of(e.recv)
+            if ty == ("cls", TS):
+                owners.add(e.recv[2])
+    return owners
+
+
+def every_removal_reported(cx: Ctx, rule: str, owners: t.Optional[t.Set[str]] = None):
+    """no store method drops a value silently: on every path, each value taken out of the store (and not put back
+    under the same key) has its callback invoked.  `owners`: only store methods used on these TimedStore attributes
+    matter to the calling property (the class is shared by discovery and subscription bookkeeping)"""
+    run = cx.run
+    n = 0
+    for fi in cx.store_methods():
+        if owners is not None and not (owners_using(cx, fi) & owners):
+            continue
+        worst = None
+        for p in cx.eng.paths(fi, recv=TS):
+            run.paths += 1
+            if p.outcome[0] == "raise":
+                continue
+            removed = 0
+            for e, kind, pres in cx.key_lookups(p):
+                if kind == "pop" and pres is not False and e.raised is None:
+                    key = e.args[0]
+                    readded = any(w.kind == "store" and cx._is_store_mutation(w) and w.target[2] == key and w.seq > e.seq for w in p.events)
+                    if not readded:
+                        removed += 1
+            cbs = [e for e in p.events if e.kind == "call" and ((not e.sched and cx.slot_role(e.fterm) == "callback_expired")
+                                                                   or (e.sched and cx.slot_role(e.cb) == "callback_expired"))]
+            bulk = len(_items_elems(cx, p))
+            if removed + bulk > len(cbs) and worst is None:
+                worst = f"path [{p.describe()[:70]}] takes {removed + bulk} value(s) out of the store but reports {len(cbs)}"
+        n += 1
+        run.ob(rule, f"{fi.qual}:no-silent-removal", worst is None, loc(fi),
+               "every value removed from the store is reported through its callback" if worst is None else
+               worst + ": listeners keep believing in an entry that is gone (no 'stopped'/'unsubscribed', the next refresh looks new)")
+    run.floor(rule + "-store-methods", n, 4)
 
 
 def _items_elems(cx, p):
@@ -240,8 +304,8 @@ def cancel_on_removal(cx: Ctx, rule: str):
         for p in cx.eng.paths(fi, recv=TS):
             run.paths += 1
             removed = []  # terms of stored tuples taken out (or overwritten) on this path
-            for e in p.events:
-                if e.kind == "call" and e.attrname == "pop" and cx._is_store_mutation(e) and e.raised is None and e.result is not None:
+            for e, kind, pres in cx.key_lookups(p):
+                if kind == "pop" and pres is not False and e.result is not None and e.raised is None:
                     removed.append((e, ("item", e.result, const(hidx))))
             # in-place replacement: value looked up, then the same key written again
             for e, kind, pres in cx.key_lookups(p):
@@ -253,6 +317,7 @@ def cancel_on_removal(cx: Ctx, rule: str):
             # bulk removal: every value visited by `for k, v in <store>[addr].items()` is dropped by clear()
             cleared = [e for e in p.events if e.kind == "call" and e.attrname == "clear" and cx._is_store_mutation(e)
                        and e.recv is not None and e.recv[0] == "item"]
+            cleared += [e for e in p.events if e.kind == "call" and e.attrname == "pop" and e.recv == ("attr", ("self", TS), "store") and e.args]
             if cleared:
                 for el in _items_elems(cx, p):
                     removed.append((cleared[0], ("item", ("item", el, const(1)), const(hidx))))
